@@ -27,6 +27,13 @@ CHECKS = {
         note="Same interpreter on both sides; trusts the statement-id hook in exec_block_with_flow.",
         design="DESIGN.md §4 C03",
     ),
+    "C06": dict(
+        engine="crash",
+        technique="runtime monitoring: exit status / panic hook of isolated worker processes over an exhaustively enumerated route x position x run-time-type product plus random type confusion",
+        text="Held on the complete product (regenerated on every run, ~24k programs) of 8 routes by which a dynamically typed value reaches ~240 operator/condition/index/method/argument positions with each of 7 run-time types, on forward calls before a captured declaration, and on N random type-confused programs: every program the checker accepts ends normally or with a reported runtime error; no panic, abort or signal of the interpreter. The product is finite and enumerated completely (exhaustive over the templates), the compositions beyond it are sampled.",
+        note="Allocation-failure aborts with plausible sizes and watchdog kills are resource outcomes (inconclusive), a failed allocation of >= 1 TiB counts as memory corruption (violation).",
+        design="DESIGN.md §4 C06, appendix C",
+    ),
     "C04": dict(
         engine="sem",
         technique="runtime monitoring: generated scope-heavy programs with site-unique values against a reference interpreter with real lexical closures",
